@@ -210,3 +210,74 @@ func C16_order() {
 	sym.Assert(sym.DeepEqual(interface{}(got.intro), interface{}(canon.intro)), "same introspection answer as the canonical arrangement")
 	sym.Assert(sym.DeepEqual(interface{}(got.mut), interface{}(canon.mut)), "requests resolve as under the canonical arrangement")
 }
+
+// c16Invalid: definition sets that are invalid only as a whole - a base that
+// is fine by itself and one more piece that contradicts it (the S name is
+// written for §).  The contradiction must be noticed wherever the piece
+// stands: before or after the base in one document, or in a later load.
+var c16Invalid = []struct {
+	base []string
+	off  string
+}{
+	{[]string{"type Query { o: O i: I }", "interface I { x: Int }", "type O implements I { x: Int }"}, "extend interface I { §: Int }"},
+	{[]string{"type Query { i: I }", "interface I { x: Int §: Int }"}, "type O implements I { x: Int }"},
+	{[]string{"type Query { u: U e: En }", "union U = Query", "enum En { A }"}, "extend union U = En"},
+	{[]string{"type Query { §: Int }"}, "extend type Query { §: Int }"},
+	{[]string{"type Query { e: En }", "enum En { A § }"}, "extend enum En { § }"},
+	{[]string{"type Query { f(i: In): Int }", "input In { §: Int }"}, "extend input In { §: Int }"},
+	{[]string{"type Query { o: O i: I }", "interface I { §: Int }", "type O { x: Int }"}, "extend type O implements I"},
+	{[]string{"type Query { o: O i: I }", "interface I { x: Int }", "type O implements I { x: Int }", "type P implements I { x: Int }"}, "extend interface I { §: Int } extend type O { §: Int }"},
+	// (valid unless the name is x: the extension and its implementer together)
+	{[]string{"type Query { o: O i: I }", "interface I { x: Int }", "type O implements I { x: Int }"}, "extend interface I { §: Int } extend type O { §: Int }"},
+}
+
+// C16_invalid: every arrangement of such a set gets the same verdict as the
+// canonical one (everything in one document, the contradicting piece last).
+func C16_invalid() {
+	c := c16Invalid[sym.Choice("definition set", len(c16Invalid))]
+	name := nameToken("member name")
+	fill := func(s string) string {
+		out := ""
+		for i := 0; i < len(s); i++ {
+			if s[i] == 0xC2 && i+1 < len(s) && s[i+1] == 0xA7 {
+				out += name
+				i++
+				continue
+			}
+			out += s[i : i+1]
+		}
+		return out
+	}
+	var base []string
+	for _, b := range c.base {
+		base = append(base, fill(b))
+	}
+	off := fill(c.off)
+	load := func(docs []string) bool {
+		root := ggql.NewRoot(&c14Node{})
+		for _, d := range docs {
+			if err := root.ParseString(d); err != nil {
+				return false
+			}
+		}
+		return true
+	}
+	sym.Budget(20_000_000)
+	canon := load([]string{c16Arrange(append(append([]string{}, base...), off), 0)})
+	if canon {
+		sym.Cover("definition set accepted")
+	} else {
+		sym.Cover("definition set rejected")
+	}
+	sym.MapOrder(true)
+	var docs []string
+	switch arr := sym.Choice("arrangement", 5); arr {
+	case 4: // the base in one load, the contradicting piece in a later one
+		docs = []string{c16Arrange(base, 0), off}
+	default:
+		docs = []string{c16Arrange(append(append([]string{}, base...), off), arr)}
+	}
+	sym.Observe("docs", len(docs))
+	got := load(docs)
+	sym.Assert(got == canon, "every arrangement gets the verdict of the canonical one")
+}
